@@ -12,12 +12,12 @@ Definition k_protocol_PackageError : Z := 2.
 Definition tr_TarsRequest (maxPackageLength : Z) (rev : (list N)) : ctl unit (Z * Z) :=
   if ((go_len rev) <? 4)
     then Return (0, k_protocol_PackageLess)
-    else go_guard (andb (go_slice_ok rev 0 4) (4 <=? go_len (go_slice rev 0 4))) (let iHeaderLen := (go_be_u32 (go_slice rev 0 4)) in
-    if (orb (iHeaderLen <? 4) (maxPackageLength <? iHeaderLen))
+    else if (andb (go_slice_ok rev 0 4) (4 <=? go_len (go_slice rev 0 4))) then (let iHeaderLen := (go_be_u32 (go_slice rev 0 4)) in
+    if (if (iHeaderLen <? 4) then true else (maxPackageLength <? iHeaderLen))
     then Return (0, k_protocol_PackageError)
     else if ((go_len rev) <? iHeaderLen)
     then Return (0, k_protocol_PackageLess)
-    else Return (iHeaderLen, k_protocol_PackageFull)).
+    else Return (iHeaderLen, k_protocol_PackageFull)) else Panic.
 
 (* tars/protocol/codec/codec.go: func Buffer.WriteHead *)
 Definition tr_WriteHead (ty : Z) (tag : Z) (out : list N) : ctl (list N) (list N * bool) :=
@@ -68,7 +68,7 @@ Definition k_codec_SHORT : Z := 1.
 (* tars/protocol/codec/codec.go: func Buffer.WriteInt16 *)
 Definition tr_WriteInt16 (data : Z) (tag : Z) (out : list N) : ctl (list N) (list N * bool) :=
   let err : bool := false in
-    bindc (if (andb (k_math_MinInt8 <=? data) (data <=? k_math_MaxInt8))
+    bindc (if (if (k_math_MinInt8 <=? data) then (data <=? k_math_MaxInt8) else false)
       then go_call (tr_WriteInt8 (wrapS 8 data) tag out) (fun r => let '(out, err) := r in
         bindc (if (negb (Bool.eqb err false))
           then Return (out, err)
@@ -95,7 +95,7 @@ Definition k_codec_INT : Z := 2.
 (* tars/protocol/codec/codec.go: func Buffer.WriteInt32 *)
 Definition tr_WriteInt32 (data : Z) (tag : Z) (out : list N) : ctl (list N) (list N * bool) :=
   let err : bool := false in
-    bindc (if (andb (k_math_MinInt16 <=? data) (data <=? k_math_MaxInt16))
+    bindc (if (if (k_math_MinInt16 <=? data) then (data <=? k_math_MaxInt16) else false)
       then go_call (tr_WriteInt16 (wrapS 16 data) tag out) (fun r => let '(out, err) := r in
         bindc (if (negb (Bool.eqb err false))
           then Return (out, err)
@@ -122,7 +122,7 @@ Definition k_codec_LONG : Z := 3.
 (* tars/protocol/codec/codec.go: func Buffer.WriteInt64 *)
 Definition tr_WriteInt64 (data : Z) (tag : Z) (out : list N) : ctl (list N) (list N * bool) :=
   let err : bool := false in
-    bindc (if (andb (k_math_MinInt32 <=? data) (data <=? k_math_MaxInt32))
+    bindc (if (if (k_math_MinInt32 <=? data) then (data <=? k_math_MaxInt32) else false)
       then go_call (tr_WriteInt32 (wrapS 32 data) tag out) (fun r => let '(out, err) := r in
         bindc (if (negb (Bool.eqb err false))
           then Return (out, err)
@@ -185,7 +185,7 @@ Definition tr_BSWL_range (endpoints : (list go_endpoint_Endpoint)) : ctl (Z * Z 
     if (maxWeight <=? 0)
     then Return (@nil Z)
     else bindc (if (0 <? minWeight)
-      then go_guard (negb (minWeight =? 0)) (let maxRange := (wrapS 64 (Z.quot maxWeight minWeight)) in
+      then if (negb (minWeight =? 0)) then (let maxRange := (wrapS 64 (Z.quot maxWeight minWeight)) in
         bindc (if (maxRange <? k_selector_minStaticWeightLimit)
           then let maxRange := k_selector_minStaticWeightLimit in
             Next maxRange
@@ -196,7 +196,7 @@ Definition tr_BSWL_range (endpoints : (list go_endpoint_Endpoint)) : ctl (Z * Z 
             Next maxRange
           else Next maxRange)
         (fun maxRange : Z => 
-        Next (maxRange, totalWeight))))
+        Next (maxRange, totalWeight)))) else Panic
       else let '(maxRange, totalWeight) := (1, 1) in
         Next (maxRange, totalWeight))
     (fun st : Z * Z => let '(maxRange, totalWeight) := st in 
@@ -213,7 +213,7 @@ Definition tr_checkActive (c_failCount : Z) (c_lastFailCount : Z) (c_status : bo
     then Return (false, false, c_status, c_lastBlockTime)
     else let now := now_ in
     bindc (if c_status
-      then bindc (if (andb (k_tars_failInterval <=? (wrapS 64 (now - c_lastSuccessTime))) (k_tars_fainN <=? c_lastFailCount))
+      then bindc (if (if (k_tars_failInterval <=? (wrapS 64 (now - c_lastSuccessTime))) then (k_tars_fainN <=? c_lastFailCount) else false)
           then let c_status := false in
             let c_lastBlockTime := now in
             Return (true, false, c_status, c_lastBlockTime)
@@ -221,7 +221,7 @@ Definition tr_checkActive (c_failCount : Z) (c_lastFailCount : Z) (c_status : bo
         (fun st : bool * Z => let '(c_status, c_lastBlockTime) := st in 
         bindc (if (k_tars_checkTime <=? (wrapS 64 (now - c_lastCheckTime)))
           then let c_lastBlockTime := now in
-            bindc (if (andb (k_tars_overN <=? c_failCount) ratio_ge)
+            bindc (if (if (k_tars_overN <=? c_failCount) then ratio_ge else false)
               then let c_status := false in
                 Return (true, false, c_status, c_lastBlockTime)
               else Next c_status)
@@ -256,7 +256,7 @@ Definition tr_Parse_build (proto : (list N)) (host : (list N)) (bind : (list N))
         (fun st : (list N) * Z => let '(proto, isTcp) := st in 
         Next (proto, isTcp)))
     (fun st : (list N) * Z => let '(proto, isTcp) := st in 
-    bindc (if (andb (negb (weightType =? 0)) (orb (weight =? (-1)) (100 <? weight)))
+    bindc (if (if (negb (weightType =? 0)) then (if (weight =? (-1)) then true else (100 <? weight)) else false)
       then let weight := 100 in
         Next weight
       else Next weight)
